@@ -23,6 +23,9 @@ for f in prog.all_funcs(own_only=False) if "own_only" in ir.Program.all_funcs.__
     ci = common.ctor_info(f)
     if ci is not None:
         ct.setdefault(f.file, {})[f.name] = {"record": ci[1], "stored": ci[2]}
+    eo = common.escaped_objects(f)
+    if eo:
+        ct.setdefault(f.file, {}).setdefault(f.name, {})["escaped"] = eo
     if f.name.endswith(("_free", "_done", "_cancel", "_freelist")) or f.name in ("http_request_cancel",):
         di = common.dtor_info(f, rel)
         if di is not None and di[1]:
